@@ -138,16 +138,18 @@ def clause_sqlite(prog, rep, sch, sites):
     ins = [s for s in snap_s if s.stmt.kind == "INSERT" and s.stmt.table == SNAP]
     rep.floor("retake-replaces", "snapshot INSERT", len(ins), 1)
     for s in ins:
-        ok = s.stmt.or_replace
-        if not ok:
+        # INSERT OR REPLACE alone is not enough: rows of the old take whose key no longer exists (e.g. relay rows whose
+        # AUTOINCREMENT id changed) would survive and be resurrected by a rollback — the old take must be deleted first
+        ok = False
+        if True:
             for d in snap_s:
                 if d.stmt.kind == "DELETE" and d.stmt.table == SNAP and set((c, o) for c, o, r in d.stmt.where) == {("snapshot_name", "="), ("group_id", "=")}:
                     if d.fn is s.fn and d.fn.dominates(d.bb, s.bb):
                         ok = True
         rep.check(ok, "retake-replaces", "snapshot/INSERT",
                   "an existing snapshot of the same (name, group) is replaced",
-                  "the snapshot rows are written with a plain INSERT on the primary key (snapshot_name, group_id, table_name, row_key): "
-                  "re-taking a snapshot under an existing name fails instead of replacing it (memory backend replaces)", s.loc())
+                  "re-taking a snapshot under an existing (name, group) does not first delete the previous take: it either fails on the primary "
+                  "key (plain INSERT) or leaves rows of the old take behind (INSERT OR REPLACE), so the snapshot is not replaced (memory backend replaces)", s.loc())
     # 6. frame
     for label, ss in (("snapshot", snap_s), ("rollback", rest_s), ("release", rel_s), ("list", list_s), ("prune", prune_s)):
         for s in ss:
@@ -223,6 +225,31 @@ def clause_memory(prog, rep):
     for c in sorted(GROUP_SCOPED_CACHES - {"groups_by_nostr_id_cache"}):
         rep.check(c in cr_touched and c in touched, "memory-field-cover", "cache/%s" % c, "group-scoped map is snapshotted and restored",
                   "group-scoped map %s is not %s" % (c, "snapshotted" if c not in cr_touched else "restored"))
+    # the secondary nostr-id index entry removed by restore is the *live* record's (what is in the map now), not the snapshot's
+    npop = 0
+    for g in rb_ext:
+        for c in g.live_calls():
+            if c.name != "pop" or not c.args or "p" not in c.args[0]:
+                continue
+            recv_dep, _, _ = g.depends_on(c.args[0]["p"][0])
+            recv_fields = set()
+            for l in recv_dep:
+                for bb, kind, x in g.defs().get(l, []):
+                    if kind == "stmt":
+                        for o in x.get("o", []):
+                            if "p" in o:
+                                recv_fields |= set(e for e in o["p"][1:] if isinstance(e, str))
+            if ".groups_by_nostr_id_cache" not in recv_fields and ".groups_by_nostr_id_cache" not in [e for e in c.args[0]["p"][1:] if isinstance(e, str)]:
+                continue
+            npop += 1
+            og = A.origins(prog, g, c.args[1]["p"][0], scope=None, max_frames=0) if len(c.args) > 1 and "p" in c.args[1] else None
+            live = bool(og) and og.has_call(lambda x: x.name == "peek") and "groups_cache" in og.fields
+            from_snapshot = bool(og) and "group" in og.fields and not live
+            rep.check(live and not from_snapshot, "memory-scope", "restore/nostr-index-key",
+                      "the routing-index entry removed on restore is keyed by the live record's nostr_group_id",
+                      "restore removes the routing-index entry under a key that is not the live record's nostr_group_id (e.g. the snapshot's): after "
+                      "a rollback across an id rotation the undone id still routes to the group", c.loc())
+    rep.floor("memory-scope", "routing-index removals in restore", npop, 1)
     # every filter closure compares against the captured group id
     nclos = 0
     for g in rb_ext + cr_ext:
